@@ -17,7 +17,7 @@ def predicate(name):
 
 
 @predicate('always')
-def _always(params, inputs):
+def _always(params, inputs, observed):
     return True
 
 
@@ -26,7 +26,7 @@ class Known(object):
         self.open = [f for f in data.get('findings', []) if f.get('status') == 'open']
         self.fixed = data.get('fixed', [])
 
-    def match(self, prop, scenario, clause, params, inputs):
+    def match(self, prop, scenario, clause, params, inputs, observed=None):
         for f in self.open:
             if f['property'] != prop or f['clause'] != clause:
                 continue
@@ -37,7 +37,7 @@ class Known(object):
                 continue
             p = PREDICATES[f.get('predicate', 'always')]
             try:
-                if p(params, inputs):
+                if p(params, inputs, dict((k, v) for k, v in (observed or []))):
                     return f['id']
             except Exception:
                 continue
@@ -54,3 +54,76 @@ def load():
     if not os.path.exists(PATH):
         return Known({})
     return Known(json.load(open(PATH)))
+
+
+# ---------------------------------------------------------------------------------
+def _series(inputs, name='x'):
+    n = 0
+    while '%s[%d]' % (name, n) in inputs:
+        n += 1
+    return [float(inputs['%s[%d]' % (name, i)]) for i in range(n)]
+
+
+def _turning_points(x):
+    """0, every first-of-plateau local extremum, first sample of the final constant run."""
+    n = len(x)
+    keep = [0] + [i for i in range(1, n) if x[i] != x[i - 1]]
+    c = [x[i] for i in keep]
+    out = [0]
+    for k in range(1, len(c) - 1):
+        if (c[k] - c[k - 1]) * (c[k + 1] - c[k]) < 0:
+            out.append(keep[k])
+    if len(c) > 1:
+        out.append(keep[-1])
+    return out
+
+
+def _ref_switched_tol(x, tol):
+    """The documented tolerance rule: a sign switch is recognised at the first turning point that goes
+    tol past zero; each recognised half cycle reports its largest |turning point| (first occurrence)."""
+    tp = _turning_points(x)
+    vals = [x[i] for i in tp]
+    last = vals[0]
+    out = []
+    cur = [(vals[0], tp[0])]
+    for k in range(1, len(vals)):
+        sgn = (last > 0) - (last < 0)
+        if (vals[k] + tol * sgn) * last <= 0:
+            best = max(range(len(cur)), key=lambda j: (abs(cur[j][0]), -j))
+            out.append(cur[best][1])
+            last = vals[k]
+            cur = []
+        cur.append((vals[k], tp[k]))
+    if cur:
+        best = max(range(len(cur)), key=lambda j: (abs(cur[j][0]), -j))
+        out.append(cur[best][1])
+    return sorted(set(out))
+
+
+@predicate('tol_recognises_switch_late')
+def _tol_late(params, inputs, observed):
+    """tol > 0; some excursion has a sample with |x| < tol before a sample with |x| >= tol (the switch into it
+    is recognised part-way through), and the library's tol output is exactly what the documented tolerance
+    rule gives - i.e. the non-subsequence is inherent to the rule, not some other malfunction."""
+    x = _series(inputs)
+    tol = float(inputs.get('tol', 0.0))
+    if tol <= 0 or 'sp_tol' not in observed:
+        return False
+    late = False
+    i = 0
+    n = len(x)
+    while i < n:
+        if x[i] == 0:
+            i += 1
+            continue
+        j = i
+        while j + 1 < n and x[j + 1] * x[i] > 0:
+            j += 1
+        small_seen = False
+        for k in range(i, j + 1):
+            if abs(x[k]) < tol:
+                small_seen = True
+            elif small_seen:
+                late = True
+        i = j + 1
+    return late and [int(v) for v in observed['sp_tol']] == _ref_switched_tol(x, tol)
